@@ -202,6 +202,16 @@ class Desugar(ast.NodeTransformer):
                 if isinstance(s, ast.Return):
                     return self._block([ast.copy_location(ast.If(test=test, body=[a], orelse=[]), s), b])
                 return self._block([ast.copy_location(ast.If(test=test, body=[a], orelse=[b]), s)])
+        # `for k, v in {literal dict}.items()` is a loop over the literal pairs
+        if isinstance(s, ast.For) and isinstance(s.iter, ast.Call) and isinstance(s.iter.func, ast.Attribute) and s.iter.func.attr in ("items", "keys", "values") \
+                and not s.iter.args and isinstance(s.iter.func.value, ast.Dict) and all(k is not None for k in s.iter.func.value.keys):
+            d = s.iter.func.value
+            if s.iter.func.attr == "items":
+                elts = [ast.Tuple(elts=[k, v], ctx=ast.Load()) for k, v in zip(d.keys, d.values)]
+            else:
+                elts = list(d.keys if s.iter.func.attr == "keys" else d.values)
+            s = ast.copy_location(ast.For(target=s.target, iter=ast.copy_location(ast.Tuple(elts=elts, ctx=ast.Load()), s.iter), body=s.body, orelse=s.orelse), s)
+            ast.fix_missing_locations(s)
         # a loop over a short literal sequence of call-free expressions is unrolled
         if isinstance(s, ast.For) and not s.orelse and isinstance(s.iter, (ast.Tuple, ast.List)) and 1 <= len(s.iter.elts) <= 8 \
                 and not any(isinstance(x, (ast.Break, ast.Continue, ast.Yield, ast.YieldFrom)) for b in s.body for x in ast.walk(b)) \
